@@ -6,7 +6,8 @@ Helper lemmas: Lemmas/InteractVec.lean, InteractKN.lean, InteractGG.lean, Intera
 
 Conventions.  `… = .done i sz rest` : the interactor returned interaction `i`, the allocator size
 is `sz`, `rest` is the unread script.  `canonical script` : every scripted uniform is in [0, 1).
-`secondaryEnergy m secs` : Σ kinetic energies + 2 m c² per positron.  
+`secondaryEnergy m secs` : Σ kinetic energies + 2 m c² per positron.  `rotOK d` : see
+`rotate_dot_partial` (hypothesis of the momentum theorems only).  
 A worst-case bound on the number of draws of a rejection loop does not exist (an adversarial
 stream can reject forever; the model returns `exhausted`); what is proved is the per-iteration
 acceptance bound for Klein–Nishina.
@@ -23,14 +24,15 @@ open CelerVerif
 theorem exiting_direction_unit (c : ℝ) (d : Vec3 ℝ) (u : ℝ) (h1 : -1 ≤ c) (h2 : c ≤ 1)
     (hd : unitV d) : unitV (exitingDirection c d u) := exitingDirection_unit c d u h1 h2 hd
 
-/-- `ExitingDirectionSampler` rotates by exactly the sampled polar cosine: result · d = cos θ.
-    (History: the snapshot's `rotate` took `sin φ = +sqrt(1 − cos²φ)` in its near-pole branch and
-    lost the sign of `d.y`; the statement then needed an extra hypothesis, and the real code
-    failed outside it — check key `rotate-near-z-negative-y`.  The model follows the corrected
-    code, which keeps the sign of y.) -/
-theorem exiting_direction_polar_cosine (c : ℝ) (d : Vec3 ℝ) (u : ℝ) (h1 : -1 ≤ c) (h2 : c ≤ 1)
-    (hd : unitV d) : dotR (exitingDirection c d u) d = c :=
-  exitingDirection_dot c d u h1 h2 hd
+/-- FULL STATEMENT (not provable): for every unit `d`, `exitingDirection c d u · d = c`.
+    Proved with the extra hypothesis `rotOK d` (Lemmas/InteractVec.lean; NOT a documented
+    precondition of `rotate`): the axis is ≥ 0.005 away from ±z in sin θ, or has `d.y ≥ 0`.
+    Outside it `rotate` reconstructs `sin φ = +sqrt(1 − cos²φ)` and loses the sign of `d.y`;
+    the real code fails there (tools/checks/c04.py, key `rotate-near-z-negative-y`, known
+    finding; commit 1e0a0e8 only repaired the NaN case of that branch). -/
+theorem rotate_dot_partial (c : ℝ) (d : Vec3 ℝ) (u : ℝ) (h1 : -1 ≤ c) (h2 : c ≤ 1)
+    (hd : unitV d) (hok : rotOK d) : dotR (exitingDirection c d u) d = c :=
+  exitingDirection_dot c d u h1 h2 hd hok
 
 /-! ## allocation failure (★): explicit failure, allocator size unchanged, nothing emitted -/
 
@@ -159,10 +161,10 @@ theorem kn_directions_unit (cap size : ℕ) (E im : ℝ) (d : Vec3 ℝ) (script 
 
 /-- ★ momentum conservation of the Compton final state when the electron is emitted:
     `E d = E' d' + p_e d_e` with `p_e = sqrt(T (T + 2 m))`, from `1 − cos θ = (1 − ε)/(ε κ)`.
-    (`im = 1/m`.) -/
+    (`im = 1/m`; `rotOK d` — see `rotate_dot_partial`.) -/
 theorem kn_momentum_conserved (cap size : ℕ) (E m : ℝ) (d : Vec3 ℝ) (script : Script ℝ)
     (i : Interaction ℝ) (sz : ℕ) (rest : Script ℝ) (hE : 0 < E) (hm : 0 < m)
-    (hc : canonical script) (hd : unitV d)
+    (hc : canonical script) (hd : unitV d) (hok : rotOK d)
     (h : kleinNishina cap size E (1 / m) d script = .done i sz rest) :
     ∀ s ∈ i.secondaries, s.pid = some pidElectron →
       let pe := Real.sqrt (s.energy * (s.energy + 2 * m))
@@ -184,7 +186,7 @@ theorem kn_momentum_conserved (cap size : ℕ) (E m : ℝ) (d : Vec3 ℝ) (scrip
   have hdir : unitV (exitingDirection (1 - omc) d u) :=
     exitingDirection_unit _ d u (by linarith) (by linarith) hd
   have hdot : dotR (exitingDirection (1 - omc) d u) d = 1 - omc :=
-    exitingDirection_dot _ d u (by linarith) (by linarith) hd
+    exitingDirection_dot _ d u (by linarith) (by linarith) hd hok
   rw [hi]
   unfold knFinal
   inum
@@ -297,7 +299,7 @@ theorem gg_second_gamma_along_incident (E m : ℝ) (d : Vec3 ℝ) (eps u : ℝ) 
     momentum balance fails.  Replayed on the real code by tools/checks/c04.py (key
     `eplusgg-momentum`). -/
 theorem gg_momentum_not_conserved (E m : ℝ) (d : Vec3 ℝ) (eps u : ℝ) (hE : 0 < E) (hm : 0 < m)
-    (hd : unitV d) (hep : 0 < eps)
+    (hd : unitV d) (hok : rotOK d) (hep : 0 < eps)
     (hc1 : -1 < (eps * (E / m + 2) - 1) / (eps * Real.sqrt (E / m * (E / m + 2))))
     (hc2 : (eps * (E / m + 2) - 1) / (eps * Real.sqrt (E / m * (E / m + 2))) ≤ 1) :
     ∀ g0 g1, (ggFinal E m d eps u).secondaries = [g0, g1] →
@@ -313,7 +315,7 @@ theorem gg_momentum_not_conserved (E m : ℝ) (d : Vec3 ℝ) (eps u : ℝ) (hE :
   set c := (eps * (E / m + 2) - 1) / (eps * Real.sqrt (E / m * (E / m + 2))) with hcdef
   have hdir : unitV (exitingDirection c d u) := exitingDirection_unit c d u (le_of_lt hc1) hc2 hd
   have hdot : dotR (exitingDirection c d u) d = c :=
-    exitingDirection_dot c d u (le_of_lt hc1) hc2 hd
+    exitingDirection_dot c d u (le_of_lt hc1) hc2 hd hok
   rw [← h0, ← h1]
   intro ⟨hx, hy, hz⟩
   try dsimp only at hx hy hz
@@ -379,7 +381,7 @@ theorem ioni_energy_conserved (m' E : ℝ) (d : Vec3 ℝ) (p M Te m u : ℝ) :
     `T_e < T`: `p d = p_e d_e + p' d'` with `p' = sqrt((T − T_e)(T − T_e + 2M))` -/
 theorem ioni_momentum_conserved (E M Te m u : ℝ) (d : Vec3 ℝ) (hE : 0 < E) (hM : 0 < M)
     (hm : 0 < m) (hT : 0 < Te) (hmax : Te ≤ maxSecondaryEnergy E M m) (hlt : Te < E)
-    (hd : unitV d) :
+    (hd : unitV d) (hok : rotOK d) :
     let i := ioniFinal E d (momentum E M) M Te m u
     let p := Real.sqrt (E * E + 2 * M * E)
     let pe := Real.sqrt (Te * (Te + 2 * m))
@@ -403,7 +405,7 @@ theorem ioni_momentum_conserved (E M Te m u : ℝ) (d : Vec3 ℝ) (hE : 0 < E) (
   have hdir : unitV (exitingDirection c d u) :=
     exitingDirection_unit c d u (by linarith) c1 hd
   have hdot : dotR (exitingDirection c d u) d = c :=
-    exitingDirection_dot c d u (by linarith) c1 hd
+    exitingDirection_dot c d u (by linarith) c1 hd hok
   have hn : nsq (exitingRaw (Real.sqrt (E * E + 2 * M * E)) d (Real.sqrt (Te * (Te + 2 * m)))
       (exitingDirection c d u)) = (E - Te) * ((E - Te) + 2 * M) := by
     rw [exitingRaw_nsq _ _ _ _ hd hdir, hdot]
@@ -644,9 +646,11 @@ theorem livermore_energy_conserved (E m' : ℝ) (d eDir : Vec3 ℝ) (binding : O
 
 /-! ## non-vacuity -/
 
-/-- the hypotheses of the momentum theorems are satisfiable: +z is a unit direction -/
-example : unitV (⟨0, 0, 1⟩ : Vec3 ℝ) := by
-  unfold unitV nsq; norm_num
+/-- the hypotheses of the momentum theorems are satisfiable: +z is a unit, `rotOK` direction -/
+example : unitV (⟨0, 0, 1⟩ : Vec3 ℝ) ∧ rotOK (⟨0, 0, 1⟩ : Vec3 ℝ) := by
+  constructor
+  · unfold unitV nsq; norm_num
+  · right; exact le_refl _
 
 /-- `canonical` scripts exist and the KN loop accepts on one: ε₀ ≤ ε ≤ 1 is reachable -/
 example : canonical ([0, 1 / 2, 3 / 4, 1 / 4] : Script ℝ) := by
